@@ -22,6 +22,9 @@ type vfC18Case struct {
 	// Sibs[d] are derived from the same parent *object* before the path child of step d (a key object must give
 	// the same children whatever was derived from it before)
 	Sibs [][]uint32 `json:"sibs,omitempty"`
+	// ZeroSibs: the sibling keys are wiped with Zero() after they have been compared (the keystore does that with
+	// every index key it derives while scanning a branch); later derivations from the same parent must not care
+	ZeroSibs bool `json:"zeroSibs,omitempty"`
 }
 
 var vfEdgeIdx = []uint32{0, 1, 2, 0x7fffffff, 0x7ffffffe, 0x80000000, 0x80000001, 0xffffffff, 44 + 0x80000000, 297 + 0x80000000, 1000000000}
@@ -55,6 +58,7 @@ func vfGenC18(t *rapid.T) vfC18Case {
 			}
 			c.Sibs = append(c.Sibs, sib)
 		}
+		c.ZeroSibs = rapid.Bool().Draw(t, "zeroSibs")
 	}
 	if rapid.IntRange(0, 3).Draw(t, "steer") == 0 {
 		k, err := vlib.RefMaster(c.Seed)
@@ -145,6 +149,9 @@ func vfC18Run(c vfC18Case, ctx *vlib.Ctx) *vlib.Failure {
 				}
 				if f := vfEqKey(where+fmt.Sprintf(" sibling %d", si), sk, sr); f != nil {
 					return f
+				}
+				if c.ZeroSibs {
+					sk.Zero()
 				}
 			}
 		}
